@@ -158,9 +158,13 @@ class Collector:
             time.sleep(0.02)
         return st
 
-    def terminate(self, sig=signal.SIGTERM, timeout=10):
+    def terminate(self, sig=signal.SIGTERM, timeout=30, second_after=None):
         t0 = time.time()
         self.p.send_signal(sig)
+        if second_after is not None:  # an impatient operator / service manager: the same signal again while it is stopping
+            time.sleep(second_after)
+            if self.p.poll() is None:
+                self.p.send_signal(sig)
         try:
             rc = self.p.wait(timeout=timeout)
         except subprocess.TimeoutExpired:
